@@ -313,6 +313,34 @@ pub fn drive(args: &Args) {
         // is_valid_rp_id on the suffix and on the registrable domain
         out.emit(valid_case(&ctx.suffix.join("."), false, "default"));
         out.emit(valid_case(&ctx.reg.join("."), false, "default"));
+        // a wildcard rule makes EVERY label below its base a public suffix - also the labels that occur in the list
+        // as parents of deeper rules (interior nodes of any compiled table): use those as the suffix as well
+        if *kind == 1 {
+            let interior: Vec<String> = all_default
+                .iter()
+                .filter(|(k2, r2)| *k2 != 2 && r2.len() > r.len() && r2[r2.len() - r.len()..] == r[..])
+                .filter_map(|(_, r2)| r2.get(r2.len() - r.len() - 1).cloned())
+                .filter(|l| !all_default.iter().any(|(k3, r3)| *k3 == 2 && r3.len() == r.len() + 1 && r3[0] == *l && r3[1..] == r[..]))
+                .collect();
+            for l in interior.iter().take(6) {
+                let mut suffix = r.clone();
+                suffix.insert(0, l.clone());
+                let mut reg = suffix.clone();
+                reg.insert(0, synth(&mut rng));
+                let ictx = RuleCtx { suffix, reg };
+                for (okind, hshape, rel) in per_rule.iter().take(4) {
+                    let Some(host) = host_of(hshape, &ictx) else { continue };
+                    let Some(rp) = rp_of(rel, &host, &ictx, &mut rng) else { continue };
+                    let abs = json!({"kind": okind, "scheme": "https", "port": "none", "host": hshape, "rp": rel, "flag": false, "provider": "default"});
+                    let c = Case { abs, kind: okind, scheme: "https", port: "none", host, rp, flag: false, provider: "default" };
+                    match run_case(&c) {
+                        Some(ev) => out.emit(ev),
+                        None => skipped += 1,
+                    }
+                }
+                out.emit(valid_case(&ictx.suffix.join("."), false, "default"));
+            }
+        }
     }
     for (flag, prov) in [(false, "default"), (true, "default"), (false, "custom"), (true, "custom")] {
         for rp in ["localhost", "notlocalhost", "", ".", "com", "test", "a.test", "co.test", "x.co.test", "ok.wild.test", "z.wild.test"] {
